@@ -50,6 +50,7 @@ def setup(rep, tier):
     rep.minimum('R13.7', 3)
     rep.minimum('R13.8', 1)
     rep.minimum('R13.9', 6)
+    rep.minimum('R13.10', 3)
 
 
 def base_type(t):
@@ -215,6 +216,8 @@ def r13_26(rep, prog):
             inst = '%s:%s soft_clip argument' % (prog.config, name)
             if v is None:
                 rep.unresolved('R13.2', '%s: soft_clip argument `%s` is not a constant' % (name, sx.show(sc)), where)
+            elif pt == 'opus_int16' and 'projection' in name:
+                r13_10_softclip(rep, prog, name, v, where)
             elif pt == 'opus_int16':
                 want = 0 if fixed else 1
                 if (v != 0) == bool(want):
@@ -496,7 +499,85 @@ def r13_9(rep, prog):
     return n
 
 
+# ------------------------------------------------------------------ R13.10
+def r13_10_softclip(rep, prog, name, v, where):
+    """facet (a): the projection relation has no soft clipper - the 16-bit output is the de-mixed float output, rounded
+    and saturated.  A clip requested by the 16-bit projection entry point acts on the elementary streams, i.e. in the
+    mixed domain, before the matrix."""
+    inst = '%s:%s does not clip the elementary streams before de-mixing' % (prog.config, name)
+    if v == 0:
+        rep.holds('R13.10', inst, where, 'soft_clip argument 0')
+    else:
+        rep.violated('R13.10', inst, where, 'soft_clip argument %d: every stream is soft-clipped to [-1,1] BEFORE the de-mixing matrix, where samples above full scale are normal; '
+                     'the 16-bit output is then not the rounded, saturated float output' % v, key='projection-decode16:stream-softclip')
+
+
+def r13_10(rep, prog):
+    """facets (b), (c): inside the 16-bit de-mix (the matrix product that accumulates one stream at a time into the
+    caller's opus_int16 buffer) nothing may saturate before the final sum: (b) the stream sample enters the product
+    unsaturated, (c) the running sum is not clamped stream by stream."""
+    n = 0
+    for f in prog.functions_all:
+        if not f.file.endswith('mapping_matrix.c') or 'out_short' not in f.name:
+            continue
+        rep.functions.add(f.name)
+        an = absint.Analyzer(prog, f, call_summary=absint.inline_summary(prog), havoc_fields_on_call=False)
+        cg = an.cf
+        outp = [i for i, q in enumerate(f.params) if base_type(q['type']) == 'opus_int16' and '*' in q['type'] and 'const' not in q['type']]
+        inp = [i for i, q in enumerate(f.params) if q['name'] == 'input']
+        if not outp or not inp:
+            rep.unresolved('R13.10', '%s: output / input parameters of %s not recognised' % (prog.config, f.name))
+            continue
+        # (b) locals assigned from the input stream
+        for b_, i_, node in cg.find(lambda x: x[0] == 'assign' and sx.kind(sx.strip(x[1])) == 'local'):
+            if not any(sx.kind(y) == 'idx' and sx.key(sx.strip(y[1])) == ('param', inp[0]) for y in sx.walk(node[2])):
+                continue
+            n += 1
+            st = an.state_before_node(b_, i_, node)
+            v = an.ev(node[2], st) if st is not None else None
+            inst = '%s:%s takes the stream sample into the matrix product without saturating it' % (prog.config, f.name)
+            where = '%s:%s' % (f.file, sx.line(node))
+            clamp = any(sx.kind(y) == 'cond' for y in sx.walk(node[2])) or any(sx.kind(y) == 'call' and sx.callee_name(y) in SATURATING for y in sx.walk(node[2]))
+            if 'FIXED_POINT' in prog.macros and 'ENABLE_RES24' not in prog.macros and not clamp:
+                rep.holds('R13.10', inst, where, 'the stream is 16-bit in this configuration')
+            elif clamp and v is not None and absint.lo(v) >= -32768 and absint.hi(v) <= 32767:
+                rep.violated('R13.10', inst, where, '`%s` saturates the stream sample to %s: streams are in the mixed domain where values above full scale are normal, so loud but legal input is hard-clipped before de-mixing' % (
+                    sx.show(node)[:60], absint.show(v)), key='projection-decode16:stream-saturation')
+            else:
+                rep.holds('R13.10', inst, where, 'no saturating conversion')
+        # (c) accumulating stores into the 16-bit output
+        for b_, i_, node in cg.find(lambda x: x[0] in ('assign', 'cassign')):
+            lv = sx.strip_paren(node[1] if node[0] == 'assign' else node[2])
+            if sx.kind(lv) != 'idx' or sx.key(sx.strip(lv[1])) != ('param', outp[0]):
+                continue
+            n += 1
+            inst = '%s:%s saturates the de-mixed sum once, not stream by stream' % (prog.config, f.name)
+            where = '%s:%s' % (f.file, sx.line(node))
+            rhs = node[2] if node[0] == 'assign' else node[3]
+            clamp = any(sx.kind(y) == 'cond' for y in sx.walk(rhs)) or any(sx.kind(y) == 'call' and sx.callee_name(y) in SATURATING for y in sx.walk(rhs))
+            accum = node[0] == 'cassign' or any(sx.kind(y) == 'local' for y in sx.walk(rhs) if False)
+            # the running sum lives in the 16-bit buffer between calls (one call per stream): a clamp here is per stream
+            reads_out = node[0] == 'cassign'
+            if node[0] == 'assign':
+                seen, work = set(), [rhs]
+                while work and not reads_out:
+                    x = work.pop()
+                    for y in sx.walk(x):
+                        if sx.kind(y) == 'idx' and sx.key(sx.strip(y[1])) == ('param', outp[0]):
+                            reads_out = True
+                        if sx.kind(y) == 'local' and y[2] not in seen:
+                            seen.add(y[2])
+                            work += [r for lv2, r in decide.find_assign(f, y[1])]
+            if reads_out and clamp:
+                rep.violated('R13.10', inst, where, '`%s` clamps the running sum after each stream\'s contribution: when a partial sum overshoots and a later stream brings the total back in range the result differs from the float output' % sx.show(node)[:70],
+                             key='projection-decode16:partial-sum-saturation')
+            else:
+                rep.holds('R13.10', inst, where, 'no per-stream clamp')
+    return n
+
+
 def check(rep, prog, tier):
+    r13_10(rep, prog)
     r13_9(rep, prog)
     from . import softclipmem
     softclipmem.check(rep, prog, 'R13.8', 'always')
